@@ -101,6 +101,22 @@ def run_C10(ctx, args):
                    workers=8, timeout=1200)
     configs = sum(int(x) for x in re.findall(r'<<"CONFIGS", (\d+)>>', r["out"]))
     ctx.cov["count_level_configurations"] = configs
+    # ---- unbounded arithmetic core (TLAPS): for EVERY base and key-set size k <= base two signer sets
+    # meeting ThresholdOf(base) share more than k/3 keys; with k = base + 1 (known finding C10-1) they need not
+    import subprocess, shutil
+    if shutil.which("tlapm"):
+        pr = subprocess.run(["timeout", "300", "tlapm", "--threads", "8", "Quorum.tla"], cwd=d, stdout=subprocess.PIPE,
+                            stderr=subprocess.STDOUT, text=True)
+        m = re.search(r"All (\d+) obligations proved", pr.stdout)
+        ctx.checker_cmds.append("tlapm --threads 8 Quorum.tla")
+        if m:
+            ctx.cov["tlaps_obligations_proved"] = int(m.group(1))
+            ctx.log("TLAPS: Quorum.tla, %s obligations proved (unbounded quorum intersection of the threshold formula)" % m.group(1))
+        else:
+            from vlib import Infra
+            raise Infra("tlapm did not prove Quorum.tla:\n" + pr.stdout[-1500:])
+    else:
+        ctx.notes.append("tlapm not found: the unbounded arithmetic lemma (spec/Membership/Quorum.tla) was not re-proved")
     ctx.log("E3 count level: %d category configurations (all totals <= 50)" % configs)
     # ---- E3 hist level: views of Membership.tla on concretized histories refine the counts.
     # Families: the boundary family of the tier plus a large family whose genesis sizes are drawn by
